@@ -383,6 +383,8 @@ def blueprint_text(spec):
         lines.append("        x: 1.2")
         lines.append("      grid contents:")
         for (i, j) in hex_cells(int(spec.get("pinrings", 2))):
+            if spec.get("pinhole") and (i, j) == (1, 0):
+                continue  # one empty position: the lattice is not invariant under rotation
             lines.append(f"        [{i}, {j}]: F")
     if spec.get("sfp", True):
         lines.append("    sfp:")
